@@ -386,7 +386,7 @@ func c17Run(r *core.Run) {
 		// behind can only affect the requests of its own, replayable, episode
 		worlds := make([]*c17World, len(optsets))
 		for oi := w; oi < len(ops); oi += nw {
-			if oi%512 == 0 && r.Expired() {
+			if (oi/nw)%32 == 0 && r.Expired() {
 				return
 			}
 			op := ops[oi]
